@@ -35,6 +35,16 @@ def _step(rng, f, g):
            lambda: [f.copy_with_new_str("zz")], lambda: [f.width_aware_slice(slice(0, b))], lambda: list(f.width_aware_splitlines(2)),
            lambda: [f.upper()], lambda: [fmtstr(f, "red")], lambda: [fmtstr(f, bold=False)], lambda: [f.copy()],
            lambda: [f.setslice_with_length(a, b, t, L + 3)], lambda: [f.setslice_with_length(L + 1, L + 2, t, L + 4)]]
+    def iadd(x):
+        h = f
+        h += x              # augmented assignment: for an immutable value the same as h = f + x (an in-place __iadd__ would edit f)
+        return [h]
+
+    def imul(k):
+        h = f
+        h *= k
+        return [h]
+    ops += [lambda: iadd(g), lambda: iadd(t), lambda: imul(2)]
     try:
         return [x for x in rng.choice(ops)() if isinstance(x, FmtStr)]
     except (ValueError, IndexError, AssertionError, TypeError):
